@@ -317,7 +317,7 @@ var c19edit = newChk("C19", "parsed-set-edits",
 
 func TestC19_EditsRapid(t *testing.T) {
 	c19edit.rapidCheck(t, rapid.Custom(func(rt *rapid.T) c19Edit {
-		return c19Edit{Wire: gen.LabelWire(false).Draw(rt, "wire"), Kind: rapid.IntRange(0, 7).Draw(rt, "kind"),
+		return c19Edit{Wire: gen.LabelWireNoDots(false).Draw(rt, "wire"), Kind: rapid.IntRange(0, 7).Draw(rt, "kind"),
 			Idx: rapid.IntRange(0, 7).Draw(rt, "idx"), Name: gen.Name().Draw(rt, "name")}
 	}))
 }
